@@ -447,6 +447,25 @@ def r4(repo, res):
            found="ok on the interval grid" if bad is None else bad, key="in-region")
 
 
+def r4_prefix(repo, res):
+    """The contig-prefix helper on unambiguous headers (a header that lists both spellings of the chromosome is ambiguous -- reads may sit on either --
+    and is left free)."""
+    f = repo.func("common::chr_prefix")
+    res.analysed(f)
+    params = [a.arg for a in f.args.args]
+    rows = {}
+    try:
+        for names, want in ((["20", "21"], ""), (["chr20", "chr21"], "chr"), (["chr1", "chr20", "chrM"], "chr"), (["1", "2"], ""), ([], "")):
+            k, v = Evaluator({params[0]: "20", params[1]: list(names)}).run(fn_body(f))
+            rows[tuple(names)] = (v if k == "return" else k, want)
+    except (Unfoldable, Raised) as e:
+        res.err("C06.R4", f"chr_prefix outside folding language: {e}")
+        return
+    bad = {n: g for n, (g, w) in rows.items() if g != w}
+    res.ob("C06.R4", f, f, not bad, expected="the alignment file's contigs are addressed with the prefix they carry: 'chr' when only the prefixed name of the chromosome is listed, none otherwise",
+           found="agrees" if not bad else str(bad), clause="reads ... outside the gene region contribute nothing (and those inside it are fetched)", key="contig-prefix")
+
+
 def r6(repo, res):
     f = repo.func("sam::Sample._make_coverage")
     res.analysed(f)
@@ -722,6 +741,7 @@ def r9_depth_conservation(repo, res):
 
 def run(repo, res):
     r9_depth_conservation(repo, res)
+    r4_prefix(repo, res)
     r8_exhaustive(repo, res)
     r1_r2_r5(repo, res)
     r1_symbolic(repo, res)
@@ -734,6 +754,10 @@ def run(repo, res):
 
 
 MUTANTS = [
+    dict(name="R4 contig prefix never applied", module="common", expect="C06.R4",
+         old='    if ch not in chrs and "chr" + ch in chrs:\n        return "chr"\n    return ""', new='    return ""'),
+    dict(name="benign: prefix preferred when a header lists both spellings (ambiguous header; seeded X9_3 shape)", module="common", kind="benign",
+         old='    if ch not in chrs and "chr" + ch in chrs:\n        return "chr"\n    return ""', new='    return "chr" if "chr" + ch in chrs else ""'),
     dict(name="R9 reference base of a substitution read one run-offset too early", module="sam", expect=["C06.R9", "C06.R2"],
          old='                        mut = (start + i, f"{self.gene[start + i]}>{seq[s_start + i]}")', new='                        mut = (start + i, f"{self.gene[start - i]}>{seq[s_start + i]}")'),
     dict(name="R7 variant-site test at the mirrored offset", module="sam", expect=["C06.R7"],
